@@ -38,7 +38,7 @@ type crsTree struct {
 	strictTests map[string]string // strict test file path -> rule id
 }
 
-var simpleBodies = []string{"newa\nnewb\n", "a+b$\n", "foo\nfob\n", "##!+ i\nfoo\nfob\n", "##!> assemble\n  a\n  ##!=>\n  b\n##!<\n", "^anchored$\n", "x{2}\ny\n",
+var simpleBodies = []string{"newa\nnewb\n", "select \n", "##!+ i\nunion select \nunion all \n", "a+b$\n", "foo\nfob\n", "##!+ i\nfoo\nfob\n", "##!> assemble\n  a\n  ##!=>\n  b\n##!<\n", "^anchored$\n", "x{2}\ny\n",
 	"##!> include words\nextra\n", "##!> cmdline unix\n  ls\n  cat@\n##!<\n", "##!=< st\nq\n##!=> st\nr\n"}
 
 func genCRSTree(r *Rng) *crsTree {
@@ -88,6 +88,11 @@ func genCRSTree(r *Rng) *crsTree {
 	}
 	if r.Chance(1, 6) {
 		t.files["root/regex-assembly/942100.ra.bak"] = "backup\n"
+	}
+	if r.Chance(1, 2) {
+		// a file that is already formatted and is the LAST one format --all visits: the verdict of
+		// --all must not be that of the last file only
+		t.files["root/regex-assembly/include/zzz-formatted.ra"] = stdHeader + "\nabc\n"
 	}
 	if r.Chance(1, 3) {
 		// decoys named like an assembly file but WITHOUT the extension: --all must not take them
@@ -230,6 +235,8 @@ func treeCommands(t *crsTree, r *Rng) []treeCmd {
 		{name: "renumber-tests --all", args: []string{"util", "renumber-tests", "--all"}, target: isTest, model: "renumber_all"},
 		{name: "renumber-tests --all -o github", args: []string{"-o", "github", "util", "renumber-tests", "--all"}, target: isTest, model: "renumber_all"},
 		{name: "update-copyright", args: []string{"chore", "update-copyright", "-v", "4.5.0", "-y", "2031"}, target: isConf, model: "copyright", a1: "4.5.0", a2: "2031"},
+		// the version the headers of the tree already show, another year: every marker is still set
+		{name: "update-copyright same version", args: []string{"chore", "update-copyright", "-v", "4.0.0", "-y", "2033"}, target: isConf, model: "copyright", a1: "4.0.0", a2: "2033"},
 		{name: "format include", args: []string{"regex", "format", t.incName}, target: isRA, model: "format_one", a1: t.incName},
 		{name: "format include --check", args: []string{"regex", "format", t.incName, "--check"}, inspect: true, target: none},
 		{name: "format notes.txt", args: []string{"regex", "format", "notes.txt"}, target: isRA, model: "format_one", a1: "notes.txt"},
@@ -337,6 +344,35 @@ func suiteTreeFrame(env *Env, res *Result) {
 				res.addFailure(Failure{Kind: "C15", Shape: "c15_file_deleted", Input: input, Detail: p})
 			}
 		}
+		// C14 on the files the command leaves behind: every marker of every target shows V and Y
+		if strings.HasPrefix(x.cmd.name, "update-copyright") && x.res.Exit == 0 {
+			for p, c := range x.after {
+				if !strings.HasPrefix(p, "root/") || !(strings.HasSuffix(p, ".conf") || strings.HasSuffix(p, ".example")) {
+					continue
+				}
+				if ok, line := markersShow(c, x.cmd.a1, x.cmd.a2); !ok {
+					res.addFailure(Failure{Kind: "C14", Shape: "c14_marker_not_updated_after_command", Input: input, Detail: fmt.Sprintf("%s: %q", p, line)})
+				}
+			}
+		}
+		// C18: --all takes its files by the same grammar as the argument form: NNNNNN[-chainK].ra only
+		if strings.Contains(x.cmd.name, "--all") && strings.HasPrefix(x.cmd.name, "update") {
+			for p, c := range x.after {
+				if strings.HasPrefix(p, "root/rules/") && (strings.Contains(c, "intruder") || strings.Contains(c, "stowaway")) {
+					res.addFailure(Failure{Kind: "C18", Shape: "c18_all_takes_file_without_extension", Input: input, Detail: p + " now holds the regex of an assembly file that has no .ra extension"})
+				}
+			}
+		}
+		if strings.Contains(x.cmd.name, "--all") && strings.HasPrefix(x.cmd.name, "compare") {
+			for p := range before {
+				if strings.HasPrefix(p, "root/regex-assembly/") && !strings.Contains(p[len("root/regex-assembly/"):], ".") && !strings.HasSuffix(p, "/") {
+					id := p[len("root/regex-assembly/"):]
+					if len(id) >= 6 && before["root/regex-assembly/"+id+".ra"] == "" && strings.Contains(x.res.Stdout, id[:6]) && !hasAssemblyFor(before, id[:6]) {
+						res.addFailure(Failure{Kind: "C18", Shape: "c18_all_takes_file_without_extension", Input: input, Detail: "compare --all reports rule " + id[:6] + " although only " + p + " (no extension) exists"})
+					}
+				}
+			}
+		}
 		// C13 on the files a successful rewriting run leaves behind (every file of --all is numbered from 1)
 		if strings.HasPrefix(x.cmd.name, "renumber-tests") && !x.cmd.inspect && x.res.Exit == 0 {
 			for p, id := range x.t.strictTests {
@@ -407,6 +443,7 @@ func suiteTreeFrame(env *Env, res *Result) {
 			{"C13", "renumber-tests --all", "renumber-tests --all --check", "c13_check_all"},
 			{"C13", "renumber-tests --all", "renumber-tests --all --check -o github", "c13_check_all_github"},
 			{"C13", "renumber-tests --all -o github", "renumber-tests --all --check", "c13_all_github"},
+			{"C16", "format --all", "format --all --check", "c16_format_check_all"},
 		}
 		for _, pr := range pairs {
 			w, c := m[pr.write], m[pr.check]
@@ -426,7 +463,7 @@ func suiteTreeFrame(env *Env, res *Result) {
 				res.addFailure(Failure{Kind: pr.prop, Shape: pr.shape + "_rewrite_fails", Input: input, Detail: fmt.Sprintf("exit %d: %s", w.res.Exit, clip(w.res.Stderr, 200))})
 			}
 			// the two rewriting variants (text / github output) must leave the same bytes
-			if w2 := m["renumber-tests --all"]; w2 != nil && w2 != w {
+			if w2 := m["renumber-tests --all"]; w2 != nil && w2 != w && strings.HasPrefix(pr.write, "renumber") {
 				if fmt.Sprint(changedBy(w2)) != fmt.Sprint(wch) {
 					res.addFailure(Failure{Kind: pr.prop, Shape: pr.shape + "_output_mode_changes_result", Input: input, Detail: fmt.Sprintf("text: %v github: %v", changedBy(w2), wch)})
 				}
@@ -628,6 +665,16 @@ type faultCase struct {
 	// for --all runs that legitimately write earlier files before failing (known finding
 	// C16-update-all-partial): the rule with this id must keep its line whatever else happens
 	mustKeep string
+}
+
+// is there a proper assembly file (NNNNNN.ra or NNNNNN-chainK.ra) for the rule id?
+func hasAssemblyFor(files Tree, id string) bool {
+	for p := range files {
+		if strings.HasPrefix(p, "root/regex-assembly/") && strings.HasSuffix(p, ".ra") && strings.HasPrefix(p[strings.LastIndex(p, "/")+1:], id) {
+			return true
+		}
+	}
+	return false
 }
 
 // number of lines containing SecRule after the first line that contains id:<id> in the rules file
